@@ -65,3 +65,11 @@ Theorem C16_nofinally_block_skips_restore :
   exec_nofinally s (Block k v body) = run_seq exec_nofinally (upd s k v) body.
 Proof. exact nofinally_block_skips_restore. Qed.
 Print Assumptions C16_nofinally_block_skips_restore.
+
+(* Nested blocks of the SAME setting: inside the inner block the inner value is in force, after it the OUTER block's value is back
+   (the log is newest first: the second observation sees v again, the first saw w). *)
+Theorem C16_innermost_wins_and_outer_value_returns :
+  forall k v w s, exists s2, run_seq exec (upd s k v) [Block k w [Obs]; Obs] = (s2, Normal) /\
+    log s2 = [set (cur s) k v; set (cur s) k w] ++ log s /\ cur s2 = set (cur s) k v.
+Proof. exact innermost_wins_and_outer_returns. Qed.
+Print Assumptions C16_innermost_wins_and_outer_value_returns.
